@@ -165,6 +165,12 @@ def ev(expr, env):
         return -a[0]
     if op == "abs":
         return abs(a[0])
+    if op in ("round", "round2", "floor", "ceil"):
+        # rounding functions (concrete values only: built with fixed variable values)
+        x = a[0]
+        if op == "round2":
+            return round(x, 2)
+        return getattr(_np, op)(x)
     if op in ("sin", "cos", "exp", "sqrt", "tan", "tanh", "log"):
         from symx import facade as _f
 
